@@ -411,16 +411,25 @@ def run_random(ctx, X, rng, nworlds, per_world, model_max_n):
     run_canaries(events, badids)
 
 
+def _outside_layers(e):
+    """layers wholly outside the [min,max] window -- used only to pick where a canary is planted."""
+    lev = e['lev']
+    be = e['b']['x'] if e['b']['set'] else lev[0]
+    te = e['t']['x'] if e['t']['set'] else lev[-1]
+    lo, hi = min(be, te), max(be, te)
+    return [k for k in range(len(lev) - 1) if lev[k] < lo or lev[k + 1] > hi]
+
+
 def run_canaries(events, badids):
     good = [e for e in events if e['id'] not in badids]
-    hz = [e for e in good if e['ev'] == 'haze' and not e['raised'] and any(m >= S - 1 for m in e['ms'][0]) and any(m == 0 for m in e['ms'][0])]
+    hz = [e for e in good if e['ev'] == 'haze' and not e['raised'] and any(m >= S - 1 for m in e['ms'][0]) and _outside_layers(e)]
     dk = [e for e in good if e['ev'] == 'deck' and e['model'] and 'inf' in e['sig'] and 'zero' in e['sig']]
     if (not hz or not dk) and not badids:
         raise Machinery('no events available for the canaries')
     can, want = [], []
     if hz:
         a = dict(hz[0]); a['ms'] = [list(r) for r in a['ms']]
-        k = a['ms'][0].index(0)
+        k = _outside_layers(a)[0]
         for r in a['ms']:
             r[k] = 5
         a['id'] = 'canary-leak'; can.append(a); want.append('canary-leak')
